@@ -19,6 +19,9 @@ use crate::{
     world::{build, committed, fan, fan_node, universes, Layout, NodeSet, UniverseOpts, World},
 };
 
+/// Identified root cause of fruitless full sessions (tier-independent violation keys).
+pub const BUDGET_CAUSE: &str = "segment-budget-spent-on-commands-the-requester-holds";
+
 pub const CFGS: [Cfg; 4] = [
     Cfg { mode: Mode::OneShot, persistent: true },
     Cfg { mode: Mode::OneShot, persistent: false },
@@ -80,6 +83,9 @@ pub struct PairStats {
     pub probes: u64,
     /// sessions that added nothing although the requester lacked commands of the responder
     pub fruitless: Vec<String>,
+    /// per fruitless session: did it match the identified root cause (segment budget spent on
+    /// commands the requester already holds)?
+    pub fruitless_budget: Vec<bool>,
     /// one-response exchanges stopped making progress (informational)
     pub oneshot_stalled: bool,
 }
@@ -139,18 +145,60 @@ fn step(
     let gained = new_req.minus(cur_req).count();
     st.redundant += out.delivered.iter().filter(|&&i| cur_req.has(i)).count() as u64;
     if !missing.is_empty() && gained == 0 {
+        let cause = budget_cause(w, resp, cur_req, cur_resp, &out);
+        st.fruitless_budget.push(cause.0);
         st.fruitless.push(format!(
-            "session {} ({who}) added none of the {} missing commands {} (sample of {} addresses, {} responses, {} commands delivered, all already held)",
+            "session {} ({who}) added none of the {} missing commands {} (sample of {} addresses, {} responses, {} commands delivered, all already held; {})",
             st.sessions,
             missing.count(),
             missing.show(),
             out.sample,
             out.responses,
-            out.delivered.len()
+            out.delivered.len(),
+            cause.1
         ));
     }
     *cur_req = new_req;
     (out, gained)
+}
+
+/// Root-cause predicate for a fruitless session, evaluated on the harness's own model of what
+/// the responder can know: the addresses of the request sample that the responder has committed
+/// tell it that the requester holds their ancestors; every other committed command is "needed".
+/// True iff every delivered command was already held by the requester AND the needed commands
+/// lie in more than SEGMENT_BUFFER_MAX segments of the responder's storage (so `push_bounded`
+/// had to evict segments, keeping the lowest max cuts).
+fn budget_cause(w: &World, resp: &mut Peer, cur_req: &NodeSet, cur_resp: &NodeSet, out: &Outcome) -> (bool, String) {
+    use rtlib::rt::{Storage as _, StorageProvider as _};
+    let all_held = !out.delivered.is_empty() && out.delivered.iter().all(|&i| cur_req.has(i));
+    let sample: Vec<rtlib::rt::Address> = match crate::wire::dec_type(&out.request) {
+        Ok((crate::wire::WType::Poll { request: crate::wire::WReq::SyncRequest { commands, .. } }, _)) => commands,
+        _ => return (false, "request unreadable".into()),
+    };
+    let mut known = NodeSet::empty(w.n());
+    for a in &sample {
+        if let Some(&i) = w.idx_of.get(&a.id) {
+            if cur_resp.has(i) {
+                known.insert(i);
+                known = known.union(&w.anc[i]);
+            }
+        }
+    }
+    let needed = cur_resp.minus(&known);
+    let mut segments = std::collections::BTreeSet::new();
+    if let Ok(storage) = resp.r.client.provider().get_storage(w.graph) {
+        for i in needed.iter() {
+            let addr = rtlib::replica::addr(w.ids[i], w.max_cuts[i]);
+            if let Ok(Some(loc)) = storage.get_location(addr, &mut resp.r.buffers.traversal.primary) {
+                segments.insert(loc.segment);
+            }
+        }
+    }
+    let over = segments.len() > crate::segment_buffer_max();
+    (
+        all_held && over,
+        format!("the responder could not know that the requester holds {} of the {} commands it considered needed; those lie in {} segments, budget {}", needed.count() - needed.minus(cur_req).count(), needed.count(), segments.len(), crate::segment_buffer_max()),
+    )
 }
 
 /// Buffer-size probe (C17): replay the recorded request against the responder's replica with
@@ -269,8 +317,9 @@ pub fn run_pair(p: &Pair<'_>, seed: u64) -> PairStats {
                 st.oneshot_stalled = true;
                 return st;
             }
+            let budget_only = !st.fruitless_budget.is_empty() && st.fruitless_budget.iter().all(|b| *b);
             st.c16.push((
-                "never-delivered".into(),
+                if budget_only { format!("never-delivered:{BUDGET_CAUSE}") } else { "never-delivered".into() },
                 format!("{dry} consecutive sessions A<-B added nothing; A still lacks {} of B's commands: {}; first fruitless session: {}", cur_b.minus(&cur_a).count(), cur_b.minus(&cur_a).show(), st.fruitless.first().cloned().unwrap_or_default()),
             ));
             return st;
@@ -299,8 +348,12 @@ pub fn run_pair(p: &Pair<'_>, seed: u64) -> PairStats {
             break;
         }
     }
-    if let (true, Some(f)) = (strict, st.fruitless.first()) {
-        st.c16.push(("session-without-progress".into(), format!("{f} ({} such sessions for this pair)", st.fruitless.len())));
+    if strict {
+        if let Some(k) = st.fruitless_budget.iter().position(|b| !*b) {
+            st.c16.push(("session-without-progress".into(), format!("{} ({} such sessions for this pair)", st.fruitless[k], st.fruitless.len())));
+        } else if let Some(f) = st.fruitless.first() {
+            st.c16.push((format!("session-without-progress:{BUDGET_CAUSE}"), format!("{f} ({} such sessions for this pair)", st.fruitless.len())));
+        }
     }
     if cur_a != cur_b && !strict {
         st.oneshot_stalled = true;
@@ -371,7 +424,7 @@ fn fold(acc: &mut Acc, p: &Pair<'_>, st: PairStats, prop: &str, states: &mut Has
         acc.outcome("violating-pair", 1);
     }
     for (clause, desc) in mine {
-        acc.fault(clause, Case { rank: p.rank(), case: p.case(), desc: format!("{}: {desc}", p.case()), replay: p.replay() });
+        acc.fault(clause, Case { rank: p.rank(), case: p.case(), desc: format!("{}: {desc}", p.case()), replay: p.replay(), fixed_key: clause.ends_with(BUDGET_CAUSE) });
     }
 }
 
@@ -543,7 +596,7 @@ fn run_grids(args: &Args, prop: &str, flavour: &str, acc: &mut Acc, states_total
             let mut states = HashSet::new();
             for &la in &layouts {
                 for &lb in &layouts {
-                    if same_layout_only && la != lb {
+                    if same_layout_only && la != lb && !(matches!((la, lb), (Layout::Chunk(1), Layout::Coarse) | (Layout::Coarse, Layout::Chunk(1)))) {
                         continue;
                     }
                     // quick: equal layouts plus the two extreme mixed ones
